@@ -17,6 +17,7 @@ on the normalised program judges an equivalent program; it can only remove findi
 of code lives.  What was inlined is recorded in prog.inlined and printed into the evidence notes.
 """
 import copy
+import json
 import os
 import re
 from collections import defaultdict
@@ -47,17 +48,144 @@ def spec_words():
 _ref = None
 
 
-def reference_fns():
-    """Function keys of the reference tree (lint/known_fns.txt)."""
+def reference():
+    """lint/reference.json: {"fns": {key: {"sig"}}, "adts": {adt: [[field, type], ..]}} of the reference tree."""
     global _ref
     if _ref is None:
-        p = os.path.join(os.path.dirname(os.path.abspath(__file__)), "known_fns.txt")
+        p = os.path.join(os.path.dirname(os.path.abspath(__file__)), "reference.json")
         try:
             with open(p) as fh:
-                _ref = {l.strip() for l in fh if l.strip()}
-        except OSError:
-            _ref = set()
+                _ref = json.load(fh)
+        except (OSError, ValueError):
+            _ref = dict(fns={}, adts={})
     return _ref
+
+
+def reference_fns():
+    return set(reference()["fns"])
+
+
+def _scope(key):
+    return key.rsplit("::", 1)[0]
+
+
+def detect_renames(j):
+    """(function renames {current key: reference key}, field renames {adt: {current name: reference name}}).
+    A function is taken to be renamed when, within one impl / module, exactly one reference function vanished and exactly
+    one new function has the vanished one's signature.  A struct field is taken to be renamed when the struct has the same
+    number of fields with the same types in the same positions and the differing names are unknown to the reference
+    (a pure re-ordering keeps all names and is left alone)."""
+    ref = reference()
+    fns = j["fns"]
+    cur = {k for k, f in fns.items() if f["kind"] in ("Fn", "AssocFn")}
+    vanished = defaultdict(list)
+    fresh = defaultdict(list)
+    for k in ref["fns"]:
+        if k not in cur:
+            vanished[_scope(k)].append(k)
+    for k in cur:
+        if k not in ref["fns"]:
+            fresh[_scope(k)].append(k)
+    fn_ren = {}
+    for sc, vs in vanished.items():
+        ns = fresh.get(sc, [])
+        if not ns:
+            continue
+        for v in vs:
+            sig = ref["fns"][v].get("sig")
+            cands = [n for n in ns if fns[n].get("sig") == sig]
+            back = [x for x in vs if ref["fns"][x].get("sig") == sig]
+            if len(cands) == 1 and len(back) == 1:
+                fn_ren[cands[0]] = v
+    fld_ren = {}
+    for a, rf in ref["adts"].items():
+        d = j["adts"].get(a)
+        if not d or d.get("kind") != "struct" or len(d["variants"]) != 1:
+            continue
+        cf = [[x["name"], x["ty"]] for x in d["variants"][0]["fields"]]
+        if len(cf) != len(rf) or [t for _, t in cf] != [t for _, t in rf]:
+            continue
+        rn = {n for n, _ in rf}
+        cn = {n for n, _ in cf}
+        m = {}
+        for (c, _), (r, _) in zip(cf, rf):
+            if c != r:
+                if c in rn or r in cn:
+                    m = None
+                    break
+                m[c] = r
+        if m:
+            fld_ren[a] = m
+    return fn_ren, fld_ren
+
+
+def apply_renames(j, fn_ren, fld_ren):
+    """Rewrite the facts so that renamed functions / fields carry their reference names again."""
+    if fn_ren:
+        pref = [(n + "::{closure", v + "::{closure") for n, v in fn_ren.items()]
+
+        def ren(s):
+            if s in fn_ren:
+                return fn_ren[s]
+            for a, b in pref:
+                if s.startswith(a):
+                    return b + s[len(a):]
+            return s
+
+        def walk(x):
+            if isinstance(x, dict):
+                for k in list(x.keys()):
+                    v = x[k]
+                    if isinstance(v, str):
+                        x[k] = ren(v)
+                    else:
+                        walk(v)
+            elif isinstance(x, list):
+                for i, v in enumerate(x):
+                    if isinstance(v, str):
+                        x[i] = ren(v)
+                    else:
+                        walk(v)
+        walk(j["instances"])
+        walk(j["impls"])
+        for k in list(j["fns"].keys()):
+            f = j["fns"].pop(k)
+            walk(f)
+            nk = ren(k)
+            if nk in fn_ren.values() and "name" in f:
+                f["name"] = nk.split("::")[-1]
+            j["fns"][nk] = f
+    if fld_ren:
+        def walk2(x):
+            if isinstance(x, dict):
+                a = x.get("a")
+                if a in fld_ren and isinstance(x.get("f"), str) and x["f"] in fld_ren[a]:
+                    x["f"] = fld_ren[a][x["f"]]
+                if x.get("adt") in fld_ren and isinstance(x.get("field_names"), list):
+                    m = fld_ren[x["adt"]]
+                    x["field_names"] = [m.get(n, n) for n in x["field_names"]]
+                for v in x.values():
+                    walk2(v)
+            elif isinstance(x, list):
+                for v in x:
+                    walk2(v)
+        for f in j["fns"].values():
+            walk2(f.get("body"))
+            walk2(f.get("promoted"))
+        for a, m in fld_ren.items():
+            for fld in j["adts"][a]["variants"][0]["fields"]:
+                fld["name"] = m.get(fld["name"], fld["name"])
+    j["renamed"] = dict(fns=fn_ren, fields=fld_ren)
+
+
+def normalize(j):
+    """All normalisations, in order: undo renames, then inline unknown private helpers."""
+    fn_ren, fld_ren = detect_renames(j)
+    if fn_ren or fld_ren:
+        apply_renames(j, fn_ren, fld_ren)
+    else:
+        j["renamed"] = dict(fns={}, fields={})
+    return inline_helpers(j)
 
 
 def _walk(x, f):
@@ -219,8 +347,9 @@ def inline_helpers(j, log=None):
                 continue
             if name in words and (g in ref or not ref):
                 continue            # a function the rules may anchor on
-            if ref and g not in ref and g.rsplit("::", 1)[0] in vanished:
-                continue            # possibly a renamed reference function (one disappeared from the same impl / module)
+            if ref and g not in ref and g.rsplit("::", 1)[0] in vanished and len(calls.get(g, [])) > 1:
+                continue            # several call sites + a reference function vanished from the same impl: possibly a rename the
+                #                     signature test could not resolve; leave it for the rules to identify structurally
             sites = calls.get(g, [])
             if not sites or len(sites) > MAX_SITES or other.get(g):
                 continue
